@@ -21,15 +21,18 @@ from mc import canon, classes, core, objects
 #       quote     - token value written as quoted-string
 #       unknown   - an unknown directive / attribute / tag added
 TYPES = [
-    ('HttpHeaderFieldValueSTS', ';', 0, ('case', 'ws', 'empty', 'order', 'quote:max-age', 'unknown'),
+    ('HttpHeaderFieldValueSTS', ';', 0, ('case', 'ws', 'ws_eq', 'empty', 'order', 'quote:max-age', 'unknown'),
      'RFC 6797 s6.1: directive names case-insensitive, order not significant, [ directive ] may be empty, '
-     'directive-value = token | quoted-string, unrecognised directives ignored'),
-    ('HttpHeaderFieldValueExpectStaple', ';', 0, ('case', 'ws', 'order', 'unknown'), 'same grammar as RFC 6797 s6.1'),
+     'directive-value = token | quoted-string, unrecognised directives ignored; the ABNF is RFC 2616\'s with its '
+     'implied *LWS between words and separators (s2.1), so white space around "=" is not significant'),
+    ('HttpHeaderFieldValueExpectStaple', ';', 0, ('case', 'ws', 'ws_eq', 'order', 'unknown'),
+     'same grammar as RFC 6797 s6.1'),
     ('HttpHeaderFieldValueExpectCT', ',', 0, ('case', 'ws', 'empty', 'order', 'unknown'),
      'RFC 9163 s2.1: #directive list (RFC 7230 s7: OWS and empty elements), names case-insensitive, order not '
      'significant, unknown directives ignored'),
-    ('HttpHeaderFieldValuePublicKeyPinning', ';', 0, ('case', 'ws', 'order', 'unknown'),
-     'RFC 7469 s2.1: directive names case-insensitive, order not significant, unknown directives ignored'),
+    ('HttpHeaderFieldValuePublicKeyPinning', ';', 0, ('case', 'ws', 'ws_eq', 'order', 'quote:max-age', 'unknown'),
+     'RFC 7469 s2.1: directive names case-insensitive, order not significant, unknown directives ignored, '
+     'directive-value = token / quoted-string; white space as in RFC 6797'),
     ('HttpHeaderFieldValueCacheControlResponse', ',', 0, ('case', 'ws', 'empty', 'order', 'quote:max-age', 'unknown'),
      'RFC 7234 s5.2: directives case-insensitive, #list; argument as token or quoted-string; unknown ignored'),
     ('HttpHeaderFieldValueSetCookie', ';', 1, ('case', 'ws', 'ws_eq', 'order', 'unknown'),
@@ -172,8 +175,10 @@ def variants_of(text, sep, fixed, rows, max_rows):
                 out = []
                 for x in e:
                     n, _, v = x.partition('=')
-                    if n.lower() == target and v and not v.startswith('"'):
-                        out.append('%s="%s"' % (n, v))
+                    bare = v.lstrip(' \t')
+                    if n.strip(' \t').lower() == target and bare and not bare.startswith('"'):
+                        # white space another row put after "=" stays outside the quotes
+                        out.append('%s=%s"%s"' % (n, v[:len(v) - len(bare)], bare))
                     else:
                         out.append(x)
                 return out, j, '', ''
